@@ -396,6 +396,9 @@ SPECS += [
          cmpops={("DT", "<", "DT"): "p_lt"}),
 ]
 
+from . import srcspecs_small                                                   # third extension, tag "small"
+SPECS += srcspecs_small.SPECS_SMALL; HEADER += srcspecs_small.HEADER_SMALL
+
 
 def regenerate(repo: Path, coq_dir: Path):
     """Rewrite Gen/Source.v if its content changed.  Returns ({name: error}, text)."""
